@@ -76,7 +76,9 @@ def pp(n, ren=None, depth=0):
     if k == "call":
         ck = n.get("ck")
         name = short(n.get("fn", "?"))
-        ta = ("<" + ",".join(n["targs"]) + ">") if n.get("targs") and ck != "op" and len(",".join(n["targs"])) < 40 else ""
+        ta = ""
+        if n.get("targs") and ck != "op" and len(",".join(n["targs"])) < 40 and not any(t.startswith("<") for t in n["targs"]):
+            ta = "<" + ",".join(n["targs"]) + ">"
         if ck == "mem":
             obj = c[0]
             args = ", ".join(r(a) for a in c[1:])
